@@ -258,6 +258,13 @@ CUTMODES = ["whole", "char", "pieces", "fixed", "random", "random", "random"]
 
 
 def run(ctx):
+    try:
+        _run(ctx)
+    finally:
+        finish_notes(ctx)
+
+
+def _run(ctx):
     n = 700 if not ctx.thorough else 100000
     idx = 0
     for i in range(n):
@@ -280,6 +287,18 @@ def run(ctx):
                 return
             for thr in (128, 2048, None):
                 one_case(ctx, {"i": i, "thr": thr, "mode": "trunc", "k": k, "cutmode": "pieces" if k % 2 else "random", "c": k})
+
+
+def finish_notes(ctx):
+    """Reach: which functions / lines of the real Buffer ran under the step budget."""
+    sb = bufmon.stepbudget()
+    funcs = sorted({fn for fn, ln in sb.lines})
+    ctx.notes["buffer_functions_reached"] = funcs
+    ctx.notes["buffer_lines_reached"] = len(sb.lines)
+    ctx.notes["max_line_events_in_one_process_call"] = sb.max_steps
+    for need in ("process", "_cleanup_buffer", "_cleanup_beginning", "_find_message_in_buffer"):
+        if need not in funcs:
+            ctx.mark_inconclusive(f"anchored mechanism Buffer.{need} was never executed under the monitor")
 
 
 def replay(ctx, case):
